@@ -32,6 +32,8 @@ RULE = ("scan: generated age distributions over 0-5 mailboxes (incl. emptied one
         "after every scan each message ever delivered is asked for by its own id (GetMessage), so what is still in the store does not depend on what a listing shows; "
         "a stream delivers to a mailbox that is already empty when the pass starts, the delivery parked between its mailbox lookup and its mailbox lock "
         "from before the walk collects the mailboxes until after the first callback (memory store, verifhook mem.wm.lock): the fresh mail must be there afterwards; "
+        "a stream removes one of several expired messages of a mailbox between the scanner's snapshot and its first removal call there (a store's batched removal, "
+        "if it has one, is forwarded through the wrapper as one removal step); cancellation also INSIDE a mailbox of 37-400 expired messages (<n>r<m>), judged for promptness; "
         "slow: a message is handed to the real Store.AddMessage with a body reader that parks after its first chunk (half way into the store) "
         "while the real DoScan runs on the same store - mostly a mailbox whose listed mail has all expired, so that the scanner's last "
         "removal empties it - and is released when the scan has completed (or after 200 ms if the store makes the scanner wait for the "
